@@ -148,6 +148,18 @@ def run(ctx):
         faults.append({"tag": "history", "files": 2, "recs": n, "fault": {"phase": "none", "file": 0, "rec": 0}, "ok": True,
                        "visible": [], "stored": [], "failedfile": 0})
     ctx.cov["long_histories"] = hist
+    # FAULTS OF THE INDEX: the model's fault may strike at a mid-upload flush or at the flush of the commit; reached through
+    # content (a configuration key equal to a key derived from the benchmark name: two label rows with one primary key) and
+    # through a database trigger failing the INSERT of one record's label rows / record row; the poisoned record at EVERY
+    # position 1..n of the last file, n on both sides of the label batch size (990 queued arguments)
+    isizes = [1, 2, 3, 7, 24, 41, 90] if q else [1, 2, 3, 5, 7, 16, 24, 33, 41, 60, 90, 150, 260]
+    ikinds = ["config-key-equals-name-key", "config-key-name", "config-key-sub1", "config-key-gomaxprocs",
+              "label-insert-fails", "record-insert-fails"]
+    for n in isizes:
+        for kind in ikinds:
+            faults.append({"tag": "indexfault", "kind": kind, "files": 0, "recs": n, "fault": {"phase": "index", "file": 0, "rec": 0}, "ok": False,
+                           "visible": [], "stored": [], "failedfile": 0})
+    ctx.cov["index_fault_cases"] = {"records_per_file": isizes, "kinds": ikinds, "poisoned_positions": sum(isizes) * len(ikinds)}
     ctx.add_samples([faults[len(faults) // 2], ids[len(ids) // 2]], 2)
     ctx.replay("upload", faults, "single-fault scenarios against the /upload handler", timeout=3000)
     evp = os.path.join(ctx.work, "id-events.ndjson")
